@@ -382,3 +382,84 @@ Proof.
 Qed.
 
 End ApplyMove.
+
+(* ================= all moves of one transition; reading the heads ================= *)
+Section Moves.
+Variable blank : nat.
+
+Lemma enc_tape_pre_ok pre t : pre_ok (pre ++ enc_tape t).
+Proof.
+  right. unfold enc_tape.
+  exists (pre ++ map Sym (firstn (S (t_pos t)) (t_cells t)) ++ Head :: map Sym (skipn (S (t_pos t)) (t_cells t))).
+  list_eq.
+Qed.
+
+Definition act_all (mv : list mmove) (ts : list tape) : list tape :=
+  map (fun p : mmove * tape => t_move (t_write (snd p) (fst (fst p))) (snd (fst p))) (combine mv ts).
+
+Lemma apply_moves_encodes : forall ts mv pre post,
+  Forall wf ts -> Forall (fun t => t_blank t = blank) ts -> length mv = length ts -> pre_ok pre ->
+  apply_moves blank (pre ++ encode ts ++ post) (length pre) mv =
+  Ok (pre ++ encode (act_all mv ts) ++ post, length (pre ++ encode (act_all mv ts))).
+Proof.
+  induction ts as [|t ts IH]; intros [|[w d] mv] pre post Hwf Hb Hlen Hpre; simpl in Hlen; try discriminate.
+  - simpl. rewrite app_nil_r. reflexivity.
+  - inversion Hwf as [|? ? Hwt Hwts]; inversion Hb as [|? ? Hbt Hbts]; subst.
+    cbn [apply_moves]. unfold encode at 1 2. cbn [flat_map]. fold (encode ts).
+    replace (pre ++ (enc_tape t ++ encode ts) ++ post) with (pre ++ enc_tape t ++ (encode ts ++ post)) by list_eq.
+    rewrite (apply_move_encodes (t_blank t) w d pre t (encode ts ++ post) Hwt eq_refl Hpre).
+    cbn [bind fst snd].
+    replace (pre ++ enc_tape (t_move (t_write t w) d) ++ encode ts ++ post)
+      with ((pre ++ enc_tape (t_move (t_write t w) d)) ++ encode ts ++ post) by list_eq.
+    rewrite (IH mv _ post Hwts Hbts); [|injection Hlen; auto|apply enc_tape_pre_ok].
+    unfold act_all, encode. cbn [combine map flat_map fst snd]. f_equal. f_equal; list_eq.
+Qed.
+
+Lemma go_syms xs : forall prev rest heads found seps,
+  read_heads_go prev (map Sym xs ++ rest) heads found seps =
+  read_heads_go (match rev xs with [] => prev | y :: _ => Some (Sym y) end) rest heads found seps.
+Proof.
+  induction xs as [|x xs IH]; intros prev rest heads found seps; [reflexivity|].
+  cbn [map app read_heads_go]. rewrite IH. cbn [rev]. destruct (rev xs); reflexivity.
+Qed.
+
+Lemma go_segment t prev rest heads seps : wf t ->
+  read_heads_go prev (enc_tape t ++ rest) heads 0 seps =
+  read_heads_go (Some Sep) rest (Sym (t_read t) :: heads) 0 (S seps).
+Proof.
+  intro Hwf. destruct (tape_zip t Hwf) as [A [c [Bc [Hc Hl]]]].
+  rewrite (enc_tape_zip t A c Bc Hc Hl). unfold enc_z.
+  assert (Hr : t_read t = c) by (unfold t_read; rewrite Hc, <- Hl; apply nth_middle).
+  rewrite Hr.
+  replace ((map Sym A ++ Sym c :: Head :: map Sym Bc ++ [Sep]) ++ rest)
+    with (map Sym (A ++ [c]) ++ Head :: map Sym Bc ++ Sep :: rest) by list_eq.
+  rewrite go_syms, rev_app_distr. cbn [rev app read_heads_go].
+  rewrite go_syms. cbn [read_heads_go Nat.eqb Nat.ltb Nat.leb]. reflexivity.
+Qed.
+
+Lemma go_all ts : forall prev heads seps, Forall wf ts -> length heads = seps ->
+  read_heads_go prev (encode ts) heads 0 seps = Ok (rev heads ++ map (fun t => Sym (t_read t)) ts).
+Proof.
+  induction ts as [|t ts IH]; intros prev heads seps Hwf Hl.
+  - cbn [encode flat_map read_heads_go map]. rewrite Hl, Nat.eqb_refl, app_nil_r. reflexivity.
+  - inversion Hwf; subst. unfold encode. cbn [flat_map]. fold (encode ts).
+    rewrite go_segment by assumption. rewrite IH; [|assumption|reflexivity].
+    cbn [rev map]. rewrite <- app_assoc. reflexivity.
+Qed.
+
+Lemma read_heads_encode ts : Forall wf ts ->
+  read_heads (encode ts) = Ok (map Sym (map t_read ts)).
+Proof. intro H. unfold read_heads. rewrite go_all by auto. rewrite map_map. reflexivity. Qed.
+
+Lemma heads_key_syms xs : heads_key (map Sym xs) = Some xs.
+Proof. induction xs as [|x xs IH]; simpl; [reflexivity|]. rewrite IH. reflexivity. Qed.
+
+Lemma ext_initial_encode ts : Forall (fun t => t_pos t = 0 /\ wf t) ts -> ext_initial ts = Ok (encode ts).
+Proof.
+  induction 1 as [|t ts [Hp Hw] _ IH]; [reflexivity|].
+  cbn [ext_initial]. rewrite IH. unfold encode at 2. cbn [flat_map]. fold (encode ts).
+  unfold enc_tape. rewrite Hp. unfold wf in Hw. rewrite Hp in Hw.
+  destruct (t_cells t) as [|c r]; [simpl in Hw; lia|]. reflexivity.
+Qed.
+
+End Moves.
